@@ -55,7 +55,10 @@ def energy_norm(E, A):
     w, V = np.linalg.eigh(A)
     Ah = (V * np.sqrt(w)) @ V.conj().T
     Aih = (V / np.sqrt(w)) @ V.conj().T
-    return np.linalg.norm(Ah @ E @ Aih, 2)
+    M = Ah @ E @ Aih
+    if not np.isfinite(M).all():
+        return float('inf')       # an operator with overflowed / undefined entries bounds nothing
+    return np.linalg.norm(M, 2)
 
 
 def run(ctx):
